@@ -112,6 +112,7 @@ type ProcResult struct {
 	ErrType  string    `json:"err_type"`
 	Fatal    bool      `json:"fatal"`
 	IsQueryError bool  `json:"is_query_error"`
+	StdinErrorReturned bool `json:"stdin_error_returned,omitempty"`
 	Panic    string    `json:"panic,omitempty"`
 	Stamps   []OutStamp `json:"-"`
 	EndStep  int64     `json:"end_step"`
